@@ -453,21 +453,31 @@ func TestVerifStatusSave(t *testing.T) {
 
 // ---------------------------------------------------------------------------------------- replay over ZMQ
 
-func suRecvAll(sub *zmq4.Socket, quiet time.Duration) [][]string {
+// suRecvUntilMark pushes a marker message through the updater and receives until it comes back: the updater handles its
+// channel in order and PUB/SUB keeps the order, so everything published before the marker has been received by then.
+// (No guessing with quiet periods.)  Returns the messages before the marker; ok=false if the marker never arrived.
+var suMarkN int
+
+func suRecvUntilMark(sub *zmq4.Socket) ([][]string, bool) {
+	suMarkN++
+	mark := fmt.Sprintf("%d", suMarkN)
+	clientMessageChan <- ClientUpdate{tag: "VERIFMARK", state: suMarkN}
 	out := [][]string{}
-	deadline := time.Now().Add(quiet)
+	deadline := time.Now().Add(10 * time.Second)
 	for time.Now().Before(deadline) {
 		msg, err := sub.RecvMessage(zmq4.DONTWAIT)
 		if err != nil {
-			time.Sleep(2 * time.Millisecond)
+			time.Sleep(time.Millisecond)
 			continue
 		}
 		if len(msg) == 2 {
+			if msg[0] == "VERIFMARK" && msg[1] == mark {
+				return out, true
+			}
 			out = append(out, []string{msg[0], msg[1]})
 		}
-		deadline = time.Now().Add(quiet)
 	}
-	return out
+	return out, false
 }
 
 func TestVerifStatusReplay(t *testing.T) {
@@ -496,8 +506,25 @@ func TestVerifStatusReplay(t *testing.T) {
 		if err = sub.Connect(fmt.Sprintf("tcp://localhost:%d", port)); err != nil {
 			t.Fatal(err)
 		}
-		time.Sleep(600 * time.Millisecond) // RunClientUpdater sleeps 250 ms before its loop; let the subscription settle
+		// slow joiner: keep sending markers until one comes through (RunClientUpdater sleeps 250 ms before its loop)
+		joined := false
+		for k := 0; k < 100 && !joined; k++ {
+			suMarkN++
+			clientMessageChan <- ClientUpdate{tag: "VERIFMARK", state: suMarkN}
+			deadline := time.Now().Add(100 * time.Millisecond)
+			for time.Now().Before(deadline) {
+				if msg, err := sub.RecvMessage(zmq4.DONTWAIT); err == nil && len(msg) == 2 && msg[0] == "VERIFMARK" {
+					joined = true
+					break
+				}
+				time.Sleep(time.Millisecond)
+			}
+		}
+		if !joined {
+			t.Fatal("SUB socket never received anything from the updater")
+		}
 		vEmit(vmap{"ev": "Start", "scen": id, "origin": sc.Origin, "main0": "empty", "read": read0, "replay": true})
+		vEmit(vmap{"ev": "Pub", "t": "VERIFMARK", "v": 0}) // the marker is a topic like any other: it is replayed by SENDALL
 		ids := map[string]int{} // "topic\x00json" -> value id
 		sent := map[string]string{}
 		lastChange := time.Now()
@@ -516,10 +543,21 @@ func TestVerifStatusReplay(t *testing.T) {
 					}
 				}
 			case "sendall":
-				suRecvAll(sub, 150*time.Millisecond) // drain the live publications
+				if _, ok := suRecvUntilMark(sub); !ok { // everything published live so far has been received
+					t.Fatal("marker lost (live)")
+				}
 				clientMessageChan <- ClientUpdate{tag: "SENDALL", state: 0}
+				msgs, ok := suRecvUntilMark(sub)
+				if !ok {
+					t.Fatal("marker lost (sendall)")
+				}
+				lastChange = time.Now() // the markers are status changes too: they re-arm the delayed save
 				got := [][]any{}
-				for _, m := range suRecvAll(sub, 250*time.Millisecond) {
+				for _, m := range msgs {
+					if m[0] == "VERIFMARK" {
+						got = append(got, []any{m[0], 0}) // every marker value counts as "the" value of that topic
+						continue
+					}
 					vid, ok := ids[m[0]+"\x00"+m[1]]
 					if !ok {
 						vid = -1 // a body that was never published under that topic
